@@ -278,6 +278,20 @@ def e2e_worker(task: Tuple) -> Dict[str, Any]:
         out["n"] += 1
         if cls not in ("identical", "equal-scale"):
             out["findings"].append((cls, code, text, families.show(u)))
+            if cls == "unparsable" and " " in text:
+                # the unit alone renders a magnitude in front, but a *quantity* of it folds that
+                # magnitude into its own and must still round-trip to an equal quantity
+                for m in (5, 2.5):
+                    q = m * u
+                    try:
+                        back = Quantity.parse(str(q))
+                        okq = abs(float(back.in_unit(u).magnitude) - m) <= 1e-9 * m
+                    except Exception as ex:
+                        okq = False
+                    out["counts"]["quantity-of-unparsable-unit-" + ("ok" if okq else "FAILS")] = \
+                        out["counts"].get("quantity-of-unparsable-unit-" + ("ok" if okq else "FAILS"), 0) + 1
+                    if not okq:
+                        out["findings"].append(("quantity-unparsable", code, str(q), ""))
         elif kind == "pue" and e in (1, 2) and cls == "identical":
             # quantities and alternative spellings on the units that do round-trip
             for m in (5, 5.5, -3, 1e21):
